@@ -20,24 +20,24 @@ CHECKS = {
         'string up to a length bound plus generated scripts and mutations; Disciplined() is evaluated on every implementation outcome and every returned '
         'tree is deserialised into the typed AST (a non-node value in place of a tree is a violation).',
    note=TB + ' Absence of foreign exceptions inside the tokenizer/expander is observed (exhaustive short strings, generated scripts), not proved.'),
- 'C03': dict(level='proof', technique='Lean 4 proof (C03_total_conditional: every span clause on every node of every successful parse; the token-source hypothesis is discharged for the real tokenizer, one text-level hypothesis RootEnds is left) + the same predicate evaluated on implementation outcomes; model correspondence',
+ 'C03': dict(level='proof', technique='Lean 4 proof (C03_total_checked: every span clause on every node of every successful parse, no hypothesis left, one decidable per-input condition; the token-source hypothesis is discharged for the real tokenizer) + the same predicate evaluated on implementation outcomes; model correspondence',
    text='C03_total_conditional / C03_partial (Props/C03*.lean, Props/C03Total.lean, LR/SoundOrd.lean, Proofs/HoareS.lean, about 9000 lines): given RootEnds, for every input and all options every violated clause of Spec.spansWF on every node of every returned tree '
         'is one of the recorded defects (C03_known: the +heredoc, +emptydesc signatures and empty-span:reservedword, each with a kernel-checked witness): proved through an ordered-stack invariant of the LR engine (run_sound_ord, with kernel-checked table facts: every reduction but three runs with a look-ahead), one span lemma per action function, '
         'resolve of here-document redirects, the word contract of the expander and induction on nesting depth. Per input: Spec.spansWF (Lean) is evaluated on every node of every tree the implementation returns; the model reproduces the implementation\'s trees '
         '(correspondence), so a span change shows as a disagreement or a failing verdict with the input as replay. Proved: soundness of the LR engine with '
         'value invariants for arbitrary token sources (run_sound), the vehicle for the action-level span invariants.',
-   note=TB + ' tokSpans discharges the token-source hypothesis for the real tokenizer (a walk of the whole tokenizer with a two-level cursor invariant; D31/D32 are documented exactly as the failing formulations). RootEnds (the root of a nested run does not end in two newlines unless a closing parenthesis follows) is the one hypothesis left; it and the correspondence are what the per-input evaluation carries. Exclusions are the listed known findings (D11, D19).'),
+   note=TB + ' tokSpans discharges the token-source hypothesis for the real tokenizer (a walk of the whole tokenizer with a two-level cursor invariant; D31/D32 are documented exactly as the failing formulations). RootEnds (the root of a nested run does not end in two newlines unless a closing parenthesis follows) could not be derived; C03_total_checked replaces it by the decidable per-input condition rootEndsChecked (an instrumented parse, proved equal to parse, that checks every nested root; it cannot fire without two adjacent newlines in the text and held on 8.3 million generated runs). The correspondence is what the per-input evaluation carries. Exclusions are the listed known findings (D11, D19).'),
  'C04': dict(level='proof', technique='Lean 4 proof (C04_partial above the explicit token-text hypothesis TokText: provenance of every node from delivered tokens, text of operator/pipe/reserved-word nodes, redirect and word structure) + specification predicate evaluated on implementation outcomes; model correspondence',
    text='C04_partial / C04_prov / C04_spine_* / C04_redirect / C04_word_span (Props/C04*.lean, 5400 lines): under TokText (the text under a delivered token\'s span, continuations removed, is its spelling up to four explicit residues = defects D31, D32, D31+D32 and NEWLINE over here-document bodies; validated by #eval at every build on 1173 corpus and 3730 grid strings with all suffixes in both modes, 0 failures; not proved from the tokenizer) every reserved-word, operator, pipe, redirect, word and assignment node at any depth is built from delivered tokens of the parser run that built it; operator, pipe and reserved-word nodes outside words carry exactly their text up to the recorded residues; a redirect consists of its first, operator and target tokens (numeric fd = a NUMBER spanning digits that denote it); a word node spans one token and its parts satisfy C07.PartsOK in that token\'s value (value_slice, dollar_text). Per input: Spec.textOK (Lean): per kind, the source under a node\'s span is the node\'s spelling (operators/reserved words/pipes modulo line continuations, '
         'whole shell words by an independent quote-state scanner, $name/${..}/~/$(..)/`..`/<(..) forms, redirect = fd + operator + target), evaluated on every '
         'node of every returned tree incl. nested substitutions; contexts in which bashlex is known to misplace spans are part of the violation signature.',
    note=TB + ' CAUTION: TokText as currently stated was found FALSE of the model on rare inputs (an escaped backslash directly before a real continuation inside double quotes; the word <() followed by <backslash; regexp/dblparen states), so the theorems that take it are vacuous until the corrected relation lands; C04 is decided per input. TokText is a hypothesis (validated, not proved). The word clauses of textOK (whole word, cut short, starts late), adjacency of fd and operator, and the span of a here-document redirect are outside the theorem (Unlinked) and are decided per input.'),
- 'C05': dict(level='proof', technique='Lean 4 proof (C05_total_conditional: the leaves of every part are exactly the delivered tokens; token-source hypothesis discharged, RootEnds left) + specification predicate evaluated on implementation outcomes; model correspondence',
+ 'C05': dict(level='proof', technique='Lean 4 proof (C05_total_checked: the leaves of every part are exactly the delivered tokens; no hypothesis left, decidable per-input condition rootEndsChecked) + specification predicate evaluated on implementation outcomes; model correspondence',
    text='C05_partial / C05_partial_parts / C05_tokens_in_leaves (Props/C05*.lean, LR/SoundOrdH.lean, 3300 lines): given RootEnds (the token-source hypothesis TokLog is discharged for the real tokenizer: tokLog, Props/C05Total.lean), for every input and all options parse returns one part per parser run, in order, and the leaves of each part (Spec.leaves) are exactly the tokens the run consumed, grouped '
         '([fd] operator target = one redirect leaf, here-document bodies attached as their own leaf or inside the extended redirect): no token is duplicated and the only tokens without a leaf are NEWLINEs in five listed grammar positions, each with a kernel-checked witness; defect D19 is characterised exactly (a d19 group) and excluded by a decidable predicate. '
         'Per input: Spec.coverOK (Lean): the leaf spans of the returned parts are disjoint and every character outside them is layout (blank, newline, comment, line '
         'continuation), evaluated on every accepted input; model correspondence on the same inputs.',
-   note=TB + ' RootEnds is the one hypothesis left; the character-level half (text outside leaf spans is layout) and the link to the executable coverOK are not proved and are what the per-input evaluation carries.'),
+   note=TB + ' C05_total_checked has no hypothesis (rootEndsChecked is decidable per input, as in C03); the character-level half (text outside leaf spans is layout) and the link to the executable coverOK are not proved and are what the per-input evaluation carries.'),
  'C12': dict(level='proof', technique='Lean 4 typed AST + schema predicate evaluated on implementation outcomes + model correspondence; LR soundness with value invariants proved',
    text='PROVED for all inputs and all options (C12_partial, C12_partial_single, C12_only_pipelines; 4000 lines, by induction over arbitrary LR runs with a sort-indexed value invariant, an abstract type-checker of the actions decided by the kernel on the regenerated grammar, the real tokenizer\'s type/value consistency sat_nextToken, and induction on nesting depth): every node of every tree the model returns satisfies Spec.schemaOK except two named pipeline shapes. Tie: every returned tree is deserialised by a total function into the typed Lean AST (attribute sets and attribute types are then facts of the type; '
         'anything else is reported ill-typed) and Spec.schemaOK (sequence grammars of list/pipeline, kinds allowed per position, operator/pipe/redirect '
@@ -100,10 +100,10 @@ CHECKS.update({
         'skipped, enter/leave events are balanced, mapPos (posshifter, _adjustpositions) rewrites the span of every node once; the kinds constructed in the sources are a subset of '
         'the dispatched kinds which have callbacks (regenerated data). The model visit is compared with a recording nodevisitor subclass on real trees, pruning at every node of small trees.',
    note=TB),
- 'C16': dict(level='proof', technique='Lean 4 proof (C16_partial: the limited parse equals the pruned unlimited parse, under two decidable per-input conditions) + the relation evaluated on outcomes; model correspondence',
+ 'C16': dict(level='proof', technique='Lean 4 proof (C16_total_checked: the limited parse equals the pruned unlimited parse, under decidable per-input conditions only; heredocStable derived from the span theorem) + the relation evaluated on outcomes; model correspondence',
    text='C16_partial (Props/C16*.lean, 4400 lines): for every input, all options and every k, if the unlimited parse returns parts, flagsNeutral k s o and heredocStable k parts hold, then parse with expansionlimit=k returns exactly Spec.pruneLimitL k parts. Proved with a two-run relational logic on the model monad, '
         'naturality of every action function and of the LR engine in the word results (rel_action, rel_run), the word level with an abstract nested parser (rel_expandwordWith), an automatic frame walk of the whole tokenizer (frameHyp: the tokenizer neither reads nor writes the limit) and induction on nesting depth. Per input: parse(s, expansionlimit=k) must equal Spec.pruneLimit k (parse(s)) for k in 0..3 on inputs with substitutions nested up to depth 4 in every word position and on every line.',
-   note=TB + ' flagsNeutral fails on rare inputs where a skipped nested parse would have changed the shared parser-state flags (the limited parse then accepts what the unlimited one rejects - the allowed direction); heredocStable needs span containment and stays a hypothesis; both are decided per input by the relation.'),
+   note=TB + ' heredocStable is now derived (Props/C16/Stable.lean: every node below a word ends inside the word; the outermost word ends before the part or before a surviving here-document body); what remains per input: flagsNeutral, noD19 and rootEndsChecked. flagsNeutral fails on rare inputs where a skipped nested parse would have changed the shared parser-state flags (the limited parse then accepts what the unlimited one rejects - the allowed direction); heredocStable needs span containment and stays a hypothesis; both are decided per input by the relation.'),
  'C17': dict(level='proof', technique='Lean 4 proof: parsesingle is the head of parse (parsesingle_eq_head, all inputs); an option that is never asked cannot matter (query congruence); relations evaluated on outcomes',
    text='parsesingle_eq_head / parsesingle_exn_iff / parsesingle_of_parse_exn (Props/C13/Single.lean): for all inputs and options, whenever parse returns parts parsesingle returns their head (None for []), parsesingle raises exactly when the first parser run raises, and '
         'when parse raises later parsesingle still returns the first part. Proved for the whole parser model: if a run never asks optStrict (resp. optProceed) the outcome is the same for both values, and conversely a differing outcome implies the '
